@@ -163,4 +163,24 @@ theorem pipeline_example_closed_raw :
           ⟨['K'], 10, some 4, some ['b'], [], .key 2 0⟩] := by
   decide +kernel
 
+/-! #### Delay through the raw pipeline (schema of `C07.DelayDemo`) -/
+
+def delayConsts : Consts := { rawConsts with kTemporal := DelayDemo.kT }
+
+/-- `{"e": {"HED": {"go": "(Delay/1 s, Def/A, Onset)", "in": "(Def/A, Inset)"}}}` -/
+def delaySidecar : Sidecar :=
+  [(['e'], .obj [(HEDNAME, .obj [(['g','o'], .str DelayDemo.delayedOnset), (['i','n'], .str DelayDemo.inset)])])]
+
+/-- columns `onset | e`, rows `1.0 | go`, `1.5 | in`, `3.0 | in` -/
+def delayTable : Table :=
+  ⟨[onsetName, ['e']], [[['1','.','0'], ['g','o']], [['1','.','5'], ['i','n']], [['3','.','0'], ['i','n']]]⟩
+
+/-- `delay_pipeline_example_closed_raw`: from the sidecar and the raw table alone: the category entry of the first row
+holds a Delay-shifted Onset (lands at 2.0 s), so the Inset of the row at 1.5 s is reported (file row 3) and the Inset of
+the row at 3.0 s is in scope. -/
+theorem delay_pipeline_example_closed_raw :
+    (validateClosedRaw DelayDemo.env delayConsts delaySidecar delayTable).toOption =
+      some [⟨['I'], 1, some 3, none, DelayDemo.inset, .temporal 1⟩] := by
+  decide +kernel
+
 end HedVerif.C07
